@@ -1,11 +1,53 @@
 (* Composition: a Sequential of semantics-preserving stages, and a PassManager with any number of steps and with or
    without early stop over semantics-preserving stages, are semantics-preserving; hence optimize_ir for every option
-   tuple, given soundness of each stage.  The stages with a Gallina model (dead-node removal, checked common-subexpression
-   elimination) are instantiated; the others are Section hypotheses (listed in the trusted base by the harness). *)
+   tuple, given soundness of each stage.  Stated for any notion of model M with a reflexive, transitive refinement.
+   Instances: M = graph (stages DCE, checked CSE modelled) and M = graph with its table of initializer values (DCE, CSE,
+   lift constants, lift subgraph initializers, de-duplicate initializers modelled); the stages without a model are Section
+   hypotheses (listed in the trusted base by the harness). *)
 From Coq Require Import List String ZArith Bool Lia.
-Require Import OV.Graph.Syntax OV.Graph.Sem OV.Opt.Dce OV.Opt.DceProofs OV.Opt.Cse OV.Opt.CseProofs OV.Opt.Pipeline.
+Require Import OV.Graph.Syntax OV.Graph.Sem OV.Opt.Dce OV.Opt.DceProofs OV.Opt.Cse OV.Opt.CseProofs OV.Opt.Use OV.Opt.UseProofs.
+Require Import OV.Opt.Inits OV.Opt.InitsProofs OV.Opt.Pipeline.
 Import ListNotations.
 Local Open Scope list_scope.
+
+Section G.
+  Variable M : Type.
+  Variable Rf : M -> M -> Prop.
+  Hypothesis Rf_refl : forall m, Rf m m.
+  Hypothesis Rf_trans : forall a b c, Rf a b -> Rf b c -> Rf a c.
+
+  Definition stage_ok (s : mstage M) : Prop := forall g g' m, s g = Some (g', m) -> Rf g g'.
+
+  Theorem run_seq_ok l : Forall stage_ok l -> stage_ok (run_seq l).
+  Proof.
+    induction l as [|s t IH]; intros Hl g g' m; cbn.
+    - intro H; inversion H; subst. apply Rf_refl.
+    - inversion Hl; subst. destruct (s g) as [[g1 m1]|] eqn:E; [|discriminate].
+      destruct (run_seq t g1) as [[g2 m2]|] eqn:E2; [|discriminate]. intro H; inversion H; subst.
+      apply (Rf_trans g g1 g'); [exact (H1 _ _ _ E)|exact (IH H2 _ _ _ E2)].
+  Qed.
+
+  Theorem run_manager_ok steps early_stop body : Forall stage_ok body -> stage_ok (run_manager steps early_stop body).
+  Proof.
+    intro Hb. induction steps as [|k IH]; intros g g' m; cbn.
+    - intro H; inversion H; subst. apply Rf_refl.
+    - destruct (run_seq body g) as [[g1 m1]|] eqn:E; [|discriminate].
+      pose proof (run_seq_ok body Hb _ _ _ E) as R1.
+      destruct (early_stop && negb m1).
+      + intro H; inversion H; subst. exact R1.
+      + destruct (run_manager k early_stop body g1) as [[g2 m2]|] eqn:E2; [|discriminate]. intro H; inversion H; subst.
+        apply (Rf_trans g g1 g'); [exact R1|exact (IH _ _ _ E2)].
+  Qed.
+
+  Theorem optimize_ir_model_ok : forall inline num_iterations stop_if_no_change prefix loop post,
+    Forall stage_ok prefix -> Forall stage_ok loop -> Forall stage_ok post ->
+    stage_ok (optimize_ir_model inline num_iterations stop_if_no_change prefix loop post).
+  Proof.
+    intros inline n stop prefix loop post Hp Hl Hq. unfold optimize_ir_model. apply run_seq_ok.
+    apply Forall_app. split; [destruct inline; [exact Hp|constructor]|].
+    constructor; [apply run_manager_ok; exact Hl|exact Hq].
+  Qed.
+End G.
 
 Section C.
   Variable V : Type.
@@ -17,7 +59,7 @@ Section C.
   Variable limit : nat.
 
   Notation refines := (grefines V sem truth trip of_nat of_bool limit).
-  Definition mstage_sound (s : mstage) : Prop := forall g g' m, s g = Some (g', m) -> refines g g'.
+  Definition mstage_sound (s : mstage graph) : Prop := stage_ok graph refines s.
 
   Lemma refines_refl g : refines g g.
   Proof. intros F outer args r H; exact H. Qed.
@@ -25,38 +67,17 @@ Section C.
   Proof. intros A B F outer args r H. apply B, A, H. Qed.
 
   Theorem run_seq_sound l : Forall mstage_sound l -> mstage_sound (run_seq l).
-  Proof.
-    induction l as [|s t IH]; intros Hl g g' m; cbn.
-    - intro H; inversion H; subst. apply refines_refl.
-    - inversion Hl; subst. destruct (s g) as [[g1 m1]|] eqn:E; [|discriminate].
-      destruct (run_seq t g1) as [[g2 m2]|] eqn:E2; [|discriminate]. intro H; inversion H; subst.
-      apply (refines_trans g g1 g'); [exact (H1 _ _ _ E)|exact (IH H2 _ _ _ E2)].
-  Qed.
-
+  Proof. apply run_seq_ok; [exact refines_refl|exact refines_trans]. Qed.
   Theorem run_manager_sound steps early_stop body : Forall mstage_sound body -> mstage_sound (run_manager steps early_stop body).
-  Proof.
-    intro Hb. induction steps as [|k IH]; intros g g' m; cbn.
-    - intro H; inversion H; subst. apply refines_refl.
-    - destruct (run_seq body g) as [[g1 m1]|] eqn:E; [|discriminate].
-      pose proof (run_seq_sound body Hb _ _ _ E) as R1.
-      destruct (early_stop && negb m1).
-      + intro H; inversion H; subst. exact R1.
-      + destruct (run_manager k early_stop body g1) as [[g2 m2]|] eqn:E2; [|discriminate]. intro H; inversion H; subst.
-        apply (refines_trans g g1 g'); [exact R1|exact (IH _ _ _ E2)].
-  Qed.
-
+  Proof. apply run_manager_ok; [exact refines_refl|exact refines_trans]. Qed.
   Theorem optimize_ir_model_sound : forall inline num_iterations stop_if_no_change prefix loop post,
     Forall mstage_sound prefix -> Forall mstage_sound loop -> Forall mstage_sound post ->
     mstage_sound (optimize_ir_model inline num_iterations stop_if_no_change prefix loop post).
-  Proof.
-    intros inline n stop prefix loop post Hp Hl Hq. unfold optimize_ir_model. apply run_seq_sound.
-    apply Forall_app. split; [destruct inline; [exact Hp|constructor]|].
-    constructor; [apply run_manager_sound; exact Hl|exact Hq].
-  Qed.
+  Proof. apply optimize_ir_model_ok; [exact refines_refl|exact refines_trans]. Qed.
 
   (* the modelled stages *)
-  Definition dce_stage (modified : graph -> bool) : mstage := fun g => Some (dce g, modified g).
-  Definition cse_stage (modified : graph -> bool) : mstage := fun g => match cse_checked g with Some g' => Some (g', modified g) | None => None end.
+  Definition dce_stage (modified : graph -> bool) : mstage graph := fun g => Some (dce g, modified g).
+  Definition cse_stage (modified : graph -> bool) : mstage graph := fun g => match cse_checked g with Some g' => Some (g', modified g) | None => None end.
 
   Lemma dce_stage_sound f : mstage_sound (dce_stage f).
   Proof. intros g g' m H. inversion H; subst. intros F outer args r X. apply dce_sound. exact X. Qed.
@@ -69,7 +90,7 @@ Section C.
   (* optimize_ir with the pass list of the source: the stages without a model are hypotheses *)
   Section Assumed.
     Variables inline_pass fold_pass rewrite_pass unused_functions unused_opsets lift_constants lift_subgraph_initializers
-              dedup_initializers output_fix name_fix : mstage.
+              dedup_initializers output_fix name_fix : mstage graph.
     Hypothesis inline_sound : mstage_sound inline_pass.
     Hypothesis fold_sound : mstage_sound fold_pass.                 (* Props/C03.v: C03_fold_graph_sound_partial *)
     Hypothesis rewrite_sound : mstage_sound rewrite_pass.           (* C05 (rules) + C07 (application) *)
@@ -81,7 +102,7 @@ Section C.
     Hypothesis output_fix_sound : mstage_sound output_fix.
     Hypothesis name_fix_sound : mstage_sound name_fix.
 
-    Definition optimize_ir_stages (f1 f2 f3 : graph -> bool) (inline : bool) (n : nat) (stop : bool) : mstage :=
+    Definition optimize_ir_stages (f1 f2 f3 : graph -> bool) (inline : bool) (n : nat) (stop : bool) : mstage graph :=
       optimize_ir_model inline n stop [inline_pass]
         [fold_pass; rewrite_pass; dce_stage f1; unused_functions; unused_opsets]
         [dce_stage f2; lift_constants; lift_subgraph_initializers; dedup_initializers; cse_stage f3; output_fix; name_fix].
@@ -92,4 +113,87 @@ Section C.
         auto using dce_stage_sound, cse_stage_sound.
     Qed.
   End Assumed.
+
+  (* ================================================================ graph + initializer values *)
+  Variable tok_val : token -> option V.
+  Hypothesis Hconst : const_oracle V sem tok_val.
+
+  Definition imodel := (graph * itab)%type.
+  Definition irefines (m m' : imodel) : Prop := forall F args r,
+    eval_model V sem truth trip of_nat of_bool limit tok_val F [] (fst m) (snd m) args = Some r ->
+    eval_model V sem truth trip of_nat of_bool limit tok_val F [] (fst m') (snd m') args = Some r.
+  Definition istage_sound (s : mstage imodel) : Prop := stage_ok imodel irefines s.
+
+  Lemma irefines_refl m : irefines m m.
+  Proof. intros F args r H; exact H. Qed.
+  Lemma irefines_trans a b c : irefines a b -> irefines b c -> irefines a c.
+  Proof. intros A B F args r H. apply B, A, H. Qed.
+
+  Definition i_dce (f : imodel -> bool) : mstage imodel := fun m => Some ((dce (fst m), snd m), f m).
+  Definition i_cse (f : imodel -> bool) : mstage imodel :=
+    fun m => match cse_checked (fst m) with Some g' => Some ((g', snd m), f m) | None => None end.
+  (* the side conditions of lift_sound are checked by the stage: distinct table names, no lifted name bound inside the result *)
+  Definition i_lift (f : imodel -> bool) : mstage imodel :=
+    fun m => match lift (fst m) (snd m) with
+             | Some (g', t') =>
+               if nodupb (map fst t') && forallb (fun b => match tab_get b (collect (depth_graph (fst m)) (fst m)) with None => true | Some _ => false end) (binds_graph g')
+               then Some ((g', t'), f m) else None
+             | None => None
+             end.
+  Definition i_hoist (f : imodel -> bool) : mstage imodel :=
+    fun m => match hoist (fst m) with Some g' => Some ((g', snd m), f m) | None => None end.
+  Definition i_dedup (f : imodel -> bool) : mstage imodel := fun m => Some (dedup (fst m) (snd m), f m).
+
+  Lemma i_dce_sound f : istage_sound (i_dce f).
+  Proof. intros [g t] m' b H. inversion H; subst. intros F args r X. cbn in *. unfold eval_model in *. apply dce_sound. exact X. Qed.
+  Lemma i_cse_sound f : istage_sound (i_cse f).
+  Proof.
+    intros [g t] m' b. unfold i_cse. cbn [fst snd]. destruct (cse_checked g) as [g1|] eqn:E; [|discriminate].
+    intro H; inversion H; subst. intros [|F] args r X; [discriminate|]. cbn [fst snd] in *. unfold eval_model in *.
+    exact (cse_checked_sound V sem truth trip of_nat of_bool limit g g1 E F _ args r X).
+  Qed.
+  Lemma i_lift_sound f : istage_sound (i_lift f).
+  Proof.
+    intros [g t] m' b. unfold i_lift. cbn [fst snd]. destruct (lift g t) as [[g' t']|] eqn:L; [|discriminate].
+    destruct (nodupb (map fst t') && _) eqn:G; [|discriminate]. intro H; inversion H; subst.
+    apply andb_true_iff in G. destruct G as [G1 G2]. intros F args r X. cbn [fst snd] in *.
+    apply (lift_sound V sem truth trip of_nat of_bool limit tok_val Hconst g t g' t' L G1); [|reflexivity|exact X].
+    intros x Hx. rewrite forallb_forall in G2. specialize (G2 x Hx). cbn [fst] in G2. destruct (tab_get x (collect (depth_graph g) g)); [discriminate|reflexivity].
+  Qed.
+  Lemma i_hoist_sound f : istage_sound (i_hoist f).
+  Proof.
+    intros [g t] m' b. unfold i_hoist. cbn [fst snd]. destruct (hoist g) as [g'|] eqn:Hh; [|discriminate].
+    intro H; inversion H; subst. intros F args r X. cbn [fst snd] in *. unfold eval_model in *.
+    exact (hoist_sound V sem truth trip of_nat of_bool limit g g' Hh F _ args r X).
+  Qed.
+  Lemma i_dedup_sound f : istage_sound (i_dedup f).
+  Proof.
+    intros [g t] m' b H. inversion H; subst. intros F args r X. cbn [fst snd] in *.
+    destruct (dedup g t) as [g' t'] eqn:D. cbn [fst snd].
+    apply (dedup_sound V sem truth trip of_nat of_bool limit tok_val g t g' t' D F [] args r); [reflexivity|exact X].
+  Qed.
+
+  Section AssumedI.
+    Variables inline_pass fold_pass rewrite_pass unused_functions unused_opsets output_fix name_fix : mstage imodel.
+    Hypothesis inline_sound : istage_sound inline_pass.
+    Hypothesis fold_sound : istage_sound fold_pass.                 (* Props/C03.v: C03_fold_graph_sound_partial *)
+    Hypothesis rewrite_sound : istage_sound rewrite_pass.           (* C05 (rules) + C07 (application) *)
+    Hypothesis unused_functions_sound : istage_sound unused_functions.
+    Hypothesis unused_opsets_sound : istage_sound unused_opsets.
+    Hypothesis output_fix_sound : istage_sound output_fix.
+    Hypothesis name_fix_sound : istage_sound name_fix.
+
+    Definition optimize_ir_istages (f1 f2 f3 f4 f5 f6 : imodel -> bool) (inline : bool) (n : nat) (stop : bool) : mstage imodel :=
+      optimize_ir_model inline n stop [inline_pass]
+        [fold_pass; rewrite_pass; i_dce f1; unused_functions; unused_opsets]
+        [i_dce f2; i_lift f3; i_hoist f4; i_dedup f5; i_cse f6; output_fix; name_fix].
+
+    Theorem optimize_ir_isound : forall f1 f2 f3 f4 f5 f6 inline n stop, istage_sound (optimize_ir_istages f1 f2 f3 f4 f5 f6 inline n stop).
+    Proof.
+      intros. unfold optimize_ir_istages.
+      apply optimize_ir_model_ok; [exact irefines_refl|exact irefines_trans| | |];
+        repeat (apply Forall_cons || apply Forall_nil); try assumption;
+        first [apply i_dce_sound|apply i_cse_sound|apply i_lift_sound|apply i_hoist_sound|apply i_dedup_sound].
+    Qed.
+  End AssumedI.
 End C.
